@@ -677,8 +677,8 @@ func (res *dvResult) tags(s dvScript) []string {
 // ---- bounded-exhaustive enumeration (depth = scripted dial + task events)
 
 type dvAlphabet struct {
-	dials      func(cancelled bool) []dvDial
-	tasks      func(cancelled bool) []dvTask
+	dials      func(cancelled bool, depth int) []dvDial
+	tasks      func(cancelled bool, depth int) []dvTask
 	maxDepth   int
 	maxCases   int
 	waitCancel bool
@@ -702,7 +702,7 @@ func dvEnumerate(t *testing.T, base dvScript, a dvAlphabet, visit func(s dvScrip
 				if depth >= a.maxDepth {
 					continue
 				}
-				for _, d := range a.dials(res.CancelledAtExhaust) {
+				for _, d := range a.dials(res.CancelledAtExhaust, depth) {
 					c := s.clone()
 					c.Dials = append(c.Dials, d)
 					rec(c, true)
@@ -711,7 +711,7 @@ func dvEnumerate(t *testing.T, base dvScript, a dvAlphabet, visit func(s dvScrip
 				if depth >= a.maxDepth {
 					continue
 				}
-				for _, te := range a.tasks(res.CancelledAtExhaust) {
+				for _, te := range a.tasks(res.CancelledAtExhaust, depth) {
 					c := s.clone()
 					c.Tasks = append(c.Tasks, te)
 					rec(c, true)
@@ -797,7 +797,7 @@ func TestVerifC10dial(t *testing.T) {
 	alpha := dvAlphabet{
 		maxDepth:   depth,
 		waitCancel: true,
-		dials: func(cancelled bool) []dvDial {
+		dials: func(cancelled bool, _ int) []dvDial {
 			var l []dvDial
 			for _, r := range dvDialAlpha {
 				l = append(l, dvDial{R: r})
@@ -807,7 +807,7 @@ func TestVerifC10dial(t *testing.T) {
 			}
 			return l
 		},
-		tasks: func(cancelled bool) []dvTask {
+		tasks: func(cancelled bool, _ int) []dvTask {
 			var l []dvTask
 			for _, r := range dvTaskAlpha {
 				te := dvDefaultTask
